@@ -6,12 +6,26 @@ from .common import *
 from . import build
 
 
-def run_impl(cmd, script, env=None, timeout=600):
+def run_impl(cmd, script, env=None, timeout=300):
+    """rc 124 = the harness did not finish in time (it hangs: a result, not a failure of the machinery); what it had answered until then is
+    returned (read from a file, so that a harness that talks a lot can never block on a full pipe)"""
+    import tempfile
     e = dict(os.environ); e.update(build.ASAN_ENV)
     if env:
         e.update(env)
-    p = subprocess.run(cmd, input=script, stdout=subprocess.PIPE, stderr=subprocess.PIPE, text=True, env=e, timeout=timeout)
-    return p.returncode, p.stdout.splitlines(), p.stderr
+    with tempfile.TemporaryFile("w+") as fo, tempfile.TemporaryFile("w+") as fe, tempfile.TemporaryFile("w+") as fi:
+        fi.write(script); fi.flush(); fi.seek(0)
+        p = subprocess.Popen(cmd, stdin=fi, stdout=fo, stderr=fe, text=True, env=e)
+        try:
+            rc = p.wait(timeout=timeout)
+        except subprocess.TimeoutExpired:
+            p.kill(); p.wait()
+            rc = 124
+        fo.seek(0); fe.seek(0)
+        out, err = fo.read(), fe.read()
+    if rc == 124:
+        err += "\n[harness killed after %d s without finishing]" % timeout
+    return rc, out.splitlines(), err
 
 
 def run_model(script, timeout=600):
@@ -22,11 +36,11 @@ def run_model(script, timeout=600):
     return lines[:-1], lines[-1]
 
 
-def diff(cmd, ops, env=None):
+def diff(cmd, ops, env=None, timeout=300):
     """ops: list of op lines. Returns dict(rc, n, rows=[(i, op, impl, model, spec)], stderr).
     rows only for lines where impl != model or impl != spec."""
     script = "\n".join(ops) + "\n"
-    rc, impl, err = run_impl(cmd, script, env)
+    rc, impl, err = run_impl(cmd, script, env, timeout=timeout)
     model, done = run_model(script)
     rows = []
     n = min(len(impl), len(model))
